@@ -183,4 +183,5 @@ func TestC17(t *testing.T) {
 		run.Eval(fmt.Sprintf("t|%s|%s", cfg, stepsString(h)))
 	}
 	c17Concurrent(run)
+	c17Overtake(run)
 }
